@@ -12,6 +12,8 @@
 (*                  references must resolve against that file              *)
 (*          cycle   n components referring to each other in a ring         *)
 (*          deep    a chain one longer than the depth limit                *)
+(*          diamond a DAG: one schema reached twice through sibling        *)
+(*                  oneOf/allOf variants (shared, not cyclic)              *)
 (*   Allowed(case): T1 every referrer sees the inlined definition in its   *)
 (*   own context, T2 cycles/depth end in the right diagnostic, T4 the      *)
 (*   expanded document parses back to the same API.                        *)
@@ -24,7 +26,7 @@
 EXTENDS Naturals, Sequences, FiniteSets, TLC
 
 Kinds == {"schema", "parameter", "header", "response", "requestBody", "pathItem"}
-Shapes == {"chain", "cross", "cycle", "deep"}
+Shapes == {"chain", "cross", "cycle", "deep", "diamond"}
 
 \* outcome of parsing the referencing document:
 \*   "ok" | "err_recursion" | "err_depth" | "err_other" | "panic"
@@ -37,7 +39,7 @@ Allowed(c) ==
     [] OTHER -> {"ok"}
 \* when parsing succeeds and the graph is acyclic, every referrer must see what the
 \* inlined document gives (T1) and the expanded document must parse back to it (T4)
-NeedsEqual(c) == c.shape \in {"chain", "cross", "deep"}
+NeedsEqual(c) == c.shape \in {"chain", "cross", "deep", "diamond"}
 
 (*********************** implementation layer ******************************)
 \* acceptor state: ctxs : ctx id -> [stack, limit]; stored : kind -> set of keys
